@@ -331,6 +331,15 @@ func IndexScenarios() []Scenario {
 			e.Update(sns, false, d("_id", int32(50)), d("$set", d("a", int32(2), "b", int32(2))), true, nil),
 			e.Delete(sns, false, d("a", int32(2))),
 			e.Find(sns, d(), d("a", int32(1), "b", int32(-1)), nil, 0, 0),
+			// one call that changes some of the matched documents and leaves others as they are; the untouched ones
+			// are then written again on their own
+			e.InsertMany(sns, []bson.D{d("_id", int32(60), "a", int32(1), "b", int32(1)), d("_id", int32(61), "a", int32(5), "b", int32(2)), d("_id", int32(62), "a", int32(9), "b", int32(3))}, true),
+			e.Update(sns, true, d("_id", d("$gte", int32(60))), d("$max", d("a", int32(5))), false, nil),
+			e.Update(sns, false, d("_id", int32(62)), d("$set", d("a", int32(7))), false, nil),
+			e.Update(sns, true, d("_id", d("$gte", int32(60))), d("$min", d("b", int32(2))), false, nil),
+			e.Delete(sns, false, d("_id", int32(60))),
+			e.ReplaceOne(sns, d("_id", int32(61)), d("a", int32(6), "b", int32(2)), false),
+			e.Delete(sns, true, d("_id", d("$gte", int32(60)))),
 		}
 	}
 	add("before-data", func(e *Env) []Call {
@@ -340,7 +349,9 @@ func IndexScenarios() []Scenario {
 		}
 		cs = append(cs, e.InsertMany(sns, docs, true))
 		cs = append(cs, writes(e)...)
-		return append(cs, e.DropIndex(sns, "pb"), e.DropAllIndexes(sns), e.Delete(sns, true, d()))
+		return append(cs, e.DropIndex(sns, "pb"), e.DropIndexByKey(sns, d("_id", int32(1))), e.DropIndexByKey(sns, d("a", int32(1))), e.DropIndexByKey(sns, d("a", int32(1))),
+			e.DropIndexByKey(sns, d("a", float64(-1), "b", int64(1))), e.DropIndexByKey(sns, d("zz", int32(1))), e.DropIndexByKey("d.none", d("a", int32(1))),
+			e.InsertOne(sns, d("_id", int32(1))), e.DropAllIndexes(sns), e.DropIndexByKey(sns, d("_id", int32(1))), e.InsertOne(sns, d("_id", int32(1))), e.Delete(sns, true, d()))
 	})
 	add("after-data", func(e *Env) []Call {
 		cs := []Call{e.InsertMany(sns, docs, true)}
